@@ -12,6 +12,7 @@ import (
 	"strings"
 
 	"github.com/cockroachdb/errors"
+	"github.com/cockroachdb/errors/errbase"
 
 	"verifharness/core"
 	"verifharness/gen"
@@ -114,6 +115,28 @@ func checkStack(c *core.Ctx, name, tuple string, err error, want sc.Frame) {
 	if gotFn != want.Func || f.Lineno != want.Line || (f.AbsPath != want.File && f.Filename != want.File) {
 		c.Violate("first-frame/"+name, "first frame of the captured stack is not the expected caller",
 			fmt.Sprintf("%s\ngot  %s %s:%d\nwant %s %s:%d", tuple, gotFn, f.AbsPath, f.Lineno, want.Func, want.File, want.Line))
+	}
+	// what StackTrace() returns belongs to the caller: scribbling on it must not change the error
+	for x := err; x != nil; x = errors.UnwrapOnce(x) {
+		if sp, ok := x.(errbase.StackTraceProvider); ok {
+			tr := sp.StackTrace()
+			for i, j := 0, len(tr)-1; i < j; i, j = i+1, j-1 {
+				tr[i], tr[j] = tr[j], tr[i]
+			}
+			for i := range tr {
+				tr[i] = 0
+			}
+		}
+	}
+	if st2 := func() *errors.ReportableStackTrace {
+		for x := err; x != nil; x = errors.UnwrapOnce(x) {
+			if s := errors.GetReportableStackTrace(x); s != nil {
+				return s
+			}
+		}
+		return nil
+	}(); st2 == nil || len(st2.Frames) == 0 || st2.Frames[len(st2.Frames)-1].Lineno != want.Line || st2.Frames[len(st2.Frames)-1].Module+"."+st2.Frames[len(st2.Frames)-1].Function != want.Func {
+		c.Violate("stack-aliased/"+name, "modifying the slice returned by StackTrace() changes the error's recorded stack", tuple)
 	}
 	// the INNERMOST stack wins: wrapping the result — with another stack, with foreign
 	// wrappers that expose only Cause() or only Unwrap() — must not change the answer
